@@ -12,8 +12,13 @@ from bv.common import Property, Failure, time_limit, exc_name, CaseTimeout
 KINDS = ('list', 'tuple', 'iter', 'gen', 'str', 'bytes')
 # round 2: more input kinds (chunked_iter has type-specific paths: `not src`, isinstance str/bytes)
 KINDS2 = KINDS + ('bytearray', 'deque', 'range')
-REITERABLE = ('list', 'tuple', 'str', 'bytes', 'bytearray', 'deque', 'range')
-MUTABLE = ('list', 'bytearray', 'deque')
+# round 3: still more input kinds: a dict (its keys, distinct items only), a memoryview and an array of small ints
+# (sequences that are not list / str / bytes), a bare iterable (only __iter__: no len, no bool, no indexing)
+# and an old-style sequence (only __len__ / __getitem__)
+KINDS3 = KINDS2 + ('dict', 'memoryview', 'array', 'iterable', 'getitem')
+REITERABLE = ('list', 'tuple', 'str', 'bytes', 'bytearray', 'deque', 'range', 'dict', 'memoryview', 'array',
+              'iterable', 'getitem')
+MUTABLE = ('list', 'bytearray', 'deque', 'dict', 'array')
 KEYS_NUM = ('id', 'mod2', 'mod3', 'div2', 'const', 'bool', 'real', 'imag', 'den', 'nope')
 
 
@@ -32,7 +37,45 @@ def tag(c):
 
 def ikind(kind):
     """the item type of an input kind: 'str' (characters), 'bytes' (small ints) or 'list' (any item)"""
-    return 'str' if kind == 'str' else 'bytes' if kind in ('bytes', 'bytearray') else 'list'
+    return 'str' if kind == 'str' else 'bytes' if kind in ('bytes', 'bytearray', 'memoryview', 'array') else 'list'
+
+
+class BareIterable:
+    """an iterable with nothing but __iter__ (re-iterable; no __len__, no __getitem__)"""
+
+    def __init__(self, items):
+        self._items = list(items)
+
+    def __iter__(self):
+        return iter(list(self._items))
+
+
+class GetItemSeq:
+    """an old-style sequence: __len__ and __getitem__ only (iteration through the index protocol)"""
+
+    def __init__(self, items):
+        self._items = list(items)
+
+    def __len__(self):
+        return len(self._items)
+
+    def __getitem__(self, i):
+        if not isinstance(i, int):
+            raise TypeError('indices must be integers')
+        return self._items[i]
+
+
+def kind_ok(kind, codes):
+    """can an input of this kind hold exactly these item codes?"""
+    if kind == 'range':
+        return is_run(codes)
+    if kind == 'dict':
+        return len({cls(c) for c in codes}) == len(codes)
+    if ikind(kind) == 'bytes':
+        return all(c >= 1 and tag(c) == 0 and val(c) < 256 for c in codes)
+    if kind == 'str':
+        return all(c >= 1 and tag(c) == 0 for c in codes)
+    return True
 
 
 def dec(c, kind='list'):
@@ -56,6 +99,11 @@ def dec_fill(c, kind):
 
 class BadValue(Exception):
     pass
+
+
+class ChunkList(list):
+    """the chunks as code lists, plus the Python type name they all have (`ctype`; None when there is no chunk)"""
+    ctype = None
 
 
 def enc(o):
@@ -99,6 +147,19 @@ def mk_src(codes, kind):
         if not is_run(codes):
             raise BadCase('range input needs consecutive ints')
         return range(items[0], items[0] + len(items)) if items else range(0)
+    if kind == 'dict':
+        if not kind_ok(kind, codes):
+            raise BadCase('dict input needs distinct items')
+        return {x: None for x in items}
+    if kind == 'memoryview':
+        return memoryview(bytes(items))
+    if kind == 'array':
+        import array
+        return array.array('i', items)
+    if kind == 'iterable':
+        return BareIterable(items)
+    if kind == 'getitem':
+        return GetItemSeq(items)
     raise ValueError(kind)
 
 
@@ -361,6 +422,15 @@ class C09(Property):
         for name, obj in (('None', None), ('int', 3), ('float', 2.5), ('bool', True), ('object', object())):
             plain.append('  ("%s", %s, %s, %s, %s)' % (name, *('true' if b else 'false' for b in (
                 callable(obj), bool(iu.is_iterable(obj)), bool(iu.is_scalar(obj)), bool(iu.is_collection(obj))))))
+        chunk_rows = []
+        for kind in KINDS3:
+            try:
+                ch = list(iu.chunked_iter(mk_src([4, 7, 10], kind), 2))
+                names = sorted({type(c).__name__ for c in ch})
+                tname = names[0] if len(names) == 1 else 'mixed'
+            except Exception as e:      # the table then disagrees with the model and the theorem names it
+                tname = 'raises ' + type(e).__name__
+            chunk_rows.append('  ("%s", "%s")' % (kind, tname))
         text = ('/- GENERATED by harness/bv/props/c09.py (regen) from the live boltons.iterutils - do not edit.\n'
                 '   One row per kind of object: (kind, callable(obj), is_iterable(obj), is_scalar(obj),\n'
                 '   is_collection(obj)) as answered by the current source for a sample object of that kind. -/\n'
@@ -369,7 +439,9 @@ class C09(Property):
                 'def sepKindTable : List (String × Bool × Bool × Bool × Bool) := [\n%s]\n\n'
                 '/-- objects that hold nothing: `None` and item values -/\n'
                 'def plainTable : List (String × Bool × Bool × Bool × Bool) := [\n%s]\n\n'
-                'end C09.Generated\n') % (',\n'.join(rows), ',\n'.join(plain))
+                '/-- (input kind, type of the chunks `chunked_iter` yields for an input of that kind) -/\n'
+                'def chunkTypeTable : List (String × String) := [\n%s]\n\n'
+                'end C09.Generated\n') % (',\n'.join(rows), ',\n'.join(plain), ',\n'.join(chunk_rows))
         return {'C09_SepKinds.lean': text}
 
     # ------------------------------------------------------------------ generation
@@ -407,7 +479,7 @@ class C09(Property):
         numeric arguments given as float / bool, arguments left at their defaults or passed by keyword, and
         calls repeated on the same input object"""
         # -- chunked / windowed / pairwise
-        for kind in KINDS2:
+        for kind in KINDS3:
             ik = ikind(kind)
             for n in range(0, 5):
                 xs = [1 + 3 * i for i in range(n)]
@@ -504,6 +576,26 @@ class C09(Property):
                 for codes in ([], [4], [4, 7]):
                     for kind in ('bytes', 'list', 'bytearray', 'str'):
                         yield {'op': 'split', 'kind': kind, 'xs': list(xs), 'sep': ['y', codes], 'ms': None}
+        # -- round 3: every helper on the additional input kinds (dict keys, memoryview, array, a bare iterable,
+        #    an old-style __getitem__ sequence)
+        for kind in ('dict', 'memoryview', 'array', 'iterable', 'getitem'):
+            for n in range(0, 5):
+                for xs in ([4 + 3 * j for j in range(n)], [(4, 7, 4, 10, 4)[j] for j in range(n)],
+                           [(7, 4, 4, 7, 4)[j] for j in range(n)]):
+                    if not kind_ok(kind, xs):
+                        continue
+                    tw = {'twice': True}
+                    for sep in (['v', 4], ['s', [4, 7]], ['c', [4]], ['n']):
+                        for ms in (None, 1):
+                            yield dict({'op': 'split', 'kind': kind, 'xs': xs, 'sep': sep, 'ms': ms}, **tw)
+                    for op in ('lstrip', 'rstrip', 'strip'):
+                        yield dict({'op': op, 'kind': kind, 'xs': xs, 'v': 4}, **tw)
+                        yield dict({'op': op, 'kind': kind, 'xs': xs, 'v': 7}, **tw)
+                    for key in ('id', 'mod2', 'const'):
+                        yield dict({'op': 'unique', 'kind': kind, 'xs': xs, 'key': key}, **tw)
+                        yield dict({'op': 'redundant', 'kind': kind, 'xs': xs, 'key': key, 'groups': n % 2 == 0}, **tw)
+                        yield dict({'op': 'bucketize', 'kind': kind, 'xs': xs, 'key': key, 'vt': 'id', 'kf': None}, **tw)
+                        yield {'op': 'partition', 'kind': kind, 'xs': xs, 'key': key}
         # -- strip: None / 0 / False / 0.0 as strip value
         i = 0
         for n in range(0, 4):
@@ -695,8 +787,11 @@ class C09(Property):
                          'redundant', 'bucketize', 'partition', 'chunk_ranges', 'chunk_ranges', 'pysplit', 'pystrip'])
         n = rng.randint(0, 60) if big else rng.randint(0, 14)
         if op in ('chunked', 'windowed', 'pairwise'):
-            kind = rng.choice(KINDS2)
-            if kind == 'range':
+            kind = rng.choice(KINDS3)
+            if kind == 'dict':
+                xs = [1 + 3 * v for v in rng.sample(range(max(n, 1) + 3), n)]
+                fill = rng.choice([None, 0, rng.choice([1, 2, 4, 6, 13])])
+            elif kind == 'range':
                 a = rng.randrange(6)
                 xs = [1 + 3 * (a + i) for i in range(n)]
                 fill = rng.choice([None, 0, rng.choice([1, 2, 4, 6, 13])])
@@ -832,8 +927,8 @@ class C09(Property):
     def line(self, case):
         op = case['op']
         if op == 'chunked':
-            return 'chunked %s %s %s %s' % (ptok(case, 'size'), ptok(case, 'count'), opt(case['fill']),
-                                            nats(case['xs']))
+            return 'chunkedk %s %s %s %s %s' % (case['kind'], ptok(case, 'size'), ptok(case, 'count'),
+                                                opt(case['fill']), nats(case['xs']))
         if op == 'windowed':
             return 'windowed %s %s %s' % (ptok(case, 'size'), opt(case['fill']), nats(case['xs']))
         if op == 'pairwise':
@@ -928,10 +1023,96 @@ class C09(Property):
             r2 = self.invoke(iu, case, it, src)
             if r2 != r:
                 raise BadValue('a second call on the same input object gave %r, the first gave %r' % (r2, r))
+            if it:
+                # round 3: two live generators over the same input object, advanced in lockstep
+                ra, rb = self.invoke(iu, case, it, src, interleave=True)
+                if ra != r or rb != r:
+                    raise BadValue('two interleaved generators on the same input gave %r and %r, a single one %r'
+                                   % (ra, rb, r))
         return r
 
-    def invoke(self, iu, case, it, src):
-        """one call of the real function on the prepared input object; result as codes"""
+    def _split_args(self, case, kind):
+        """(positional arguments after src, the mutable separator container or None)"""
+        dflt = bool(case.get('dflt'))
+        sep = case['sep']
+        ekind = kind if kind == 'str' else 'list'
+        sepobj = None
+        if sep[0] == 'n':
+            a = (None,)
+        elif sep[0] == 'v':
+            a = (dec(sep[1], ekind),)
+        elif sep[0] == 't':
+            a = (''.join(dec(c, 'str') for c in sep[1]),)
+        elif sep[0] == 'y':
+            a = (bytes(val(c) for c in sep[1]),)
+        elif sep[0] == 's':
+            objs = [dec(c, ekind) for c in sep[1]]
+            sc = case.get('sc')
+            if sc is None:
+                sepobj = objs if len(objs) % 2 else tuple(objs)
+            else:
+                if not sep_container_ok(sc, sep[1]) or ekind == 'str' and sc in SEP_INT_ONLY:
+                    raise BadCase('a %s cannot hold the separators %r' % (sc, sep[1]))
+                sepobj = mk_sep_container(sc, objs)
+                if sc not in SEP_MUTABLE:
+                    sepobj, keep = None, sepobj
+                    a = (keep,)
+            if sepobj is not None:
+                a = (sepobj,)
+        else:
+            classes = {cls(c) for c in sep[1]}
+            a = (lambda x: (0 if x is None else int(x) + 1) in classes,)
+        if case['ms'] is not None:
+            a = a + (pobj(case, 'ms'),)
+        elif dflt and sep[0] == 'n':
+            a = ()
+        return a, sepobj
+
+    def _iter_call(self, iu, case, src):
+        """the generator object of the *_iter form (not yet advanced)"""
+        op, kind = case['op'], case['kind']
+        if op in ('chunked', 'windowed', 'pairwise'):
+            kw = {}
+            if case['fill'] is not None:
+                kw['end' if op == 'pairwise' else 'fill'] = dec_fill(case['fill'], kind)
+            if op == 'chunked':
+                return iu.chunked_iter(src, pobj(case, 'size'), **kw)
+            if op == 'windowed':
+                return iu.windowed_iter(src, pobj(case, 'size'), **kw)
+            return iu.pairwise_iter(src, **kw)
+        if op == 'split':
+            a, _ = self._split_args(case, kind)
+            return iu.split_iter(src, *a)
+        if op in ('lstrip', 'rstrip', 'strip'):
+            return getattr(iu, op + '_iter')(src, dec(case['v'], kind if kind == 'str' else 'list'))
+        if op == 'unique':
+            k = key_callable(case['key'])
+            return iu.unique_iter(src, *(() if k is None else (k,)))
+        raise ValueError(op)
+
+    def invoke(self, iu, case, it, src, interleave=False):
+        """one call of the real function on the prepared input object; result as codes.  `interleave` (iter forms
+        only): the generator is created twice on the same input and the two are advanced alternately; returns both
+        results"""
+        if interleave:
+            outs = []
+            gens = []
+            for _ in range(2):
+                g = self._iter_call(iu, case, src)
+                gens.append(iter(g))
+                outs.append([])
+            live = [True, True]
+            while any(live):
+                for j in (0, 1):
+                    if live[j]:
+                        try:
+                            outs[j].append(next(gens[j]))
+                        except StopIteration:
+                            live[j] = False
+            op = case['op']
+            if op in ('chunked', 'windowed', 'pairwise', 'split'):
+                return [encl(c) for c in outs[0]], [encl(c) for c in outs[1]]
+            return encl(outs[0]), encl(outs[1])
         op = case['op']
         kind = case['kind']
         dflt = bool(case.get('dflt'))
@@ -952,7 +1133,11 @@ class C09(Property):
                 want = str if kind == 'str' else bytes
                 if not all(type(c) is want for c in r):
                     raise BadValue('chunk type %r' % [type(c).__name__ for c in r][:3])
-            return [encl(c) for c in r]
+            # round 3: the type of the chunks is part of the observation (the model has it: `chunkKind`)
+            out = ChunkList(encl(c) for c in r)
+            types = {type(c).__name__ for c in r}
+            out.ctype = types.pop() if len(types) == 1 else ('mixed' if types else None)
+            return out
         if op in ('windowed', 'pairwise'):
             kw = {}
             if case['fill'] is not None:
@@ -966,36 +1151,7 @@ class C09(Property):
         if op == 'split':
             sep = case['sep']
             ekind = kind if kind == 'str' else 'list'
-            sepobj = None
-            if sep[0] == 'n':
-                a = (None,)
-            elif sep[0] == 'v':
-                a = (dec(sep[1], ekind),)
-            elif sep[0] == 't':
-                a = (''.join(dec(c, 'str') for c in sep[1]),)
-            elif sep[0] == 'y':
-                a = (bytes(val(c) for c in sep[1]),)
-            elif sep[0] == 's':
-                objs = [dec(c, ekind) for c in sep[1]]
-                sc = case.get('sc')
-                if sc is None:
-                    sepobj = objs if len(objs) % 2 else tuple(objs)
-                else:
-                    if not sep_container_ok(sc, sep[1]) or ekind == 'str' and sc in SEP_INT_ONLY:
-                        raise BadCase('a %s cannot hold the separators %r' % (sc, sep[1]))
-                    sepobj = mk_sep_container(sc, objs)
-                    if sc not in SEP_MUTABLE:
-                        sepobj, keep = None, sepobj
-                        a = (keep,)
-                if sepobj is not None:
-                    a = (sepobj,)
-            else:
-                classes = {cls(c) for c in sep[1]}
-                a = (lambda x: (0 if x is None else int(x) + 1) in classes,)
-            if case['ms'] is not None:
-                a = a + (pobj(case, 'ms'),)
-            elif dflt and sep[0] == 'n':
-                a = ()
+            a, sepobj = self._split_args(case, kind)
             r = list(iu.split_iter(src, *a)) if it else iu.split(src, *a)
             if sepobj is not None:
                 want = [dec(c, ekind) for c in sep[1]]
@@ -1069,7 +1225,12 @@ class C09(Property):
             return 'err ' + r['exc']
         v = r['ok']
         op = case['op']
-        if op in ('chunked', 'windowed', 'pairwise', 'split', 'pysplit') or (op == 'redundant' and case['groups']):
+        if op == 'chunked':
+            # no chunk: no type observed, the model's answer for this input kind is taken over
+            ctype = getattr(v, 'ctype', None) or ('str' if case['kind'] == 'str' else
+                                                  'bytes' if case['kind'] == 'bytes' else 'list')
+            return 'ok %s %s' % (ctype, show_ll(v))
+        if op in ('windowed', 'pairwise', 'split', 'pysplit') or (op == 'redundant' and case['groups']):
             return 'ok ' + show_ll(v)
         if op in ('lstrip', 'rstrip', 'strip', 'pystrip', 'unique', 'redundant'):
             return 'ok ' + nats(v)
